@@ -10,6 +10,7 @@ RFC defaults the statement lists.
 from __future__ import annotations
 
 import copy
+import json
 import random
 
 from vlib import exa, gen_text as gt, norm
@@ -68,7 +69,9 @@ ENH = [(1, 1, 2), (1, 4, 2), (1, 128, 2)]  # (afi, safi, next hop afi)
 
 def plan(tier, seed):
     n = 16 if tier == 'quick' else 64
-    return [{'shard': i, 'configs': 48 if tier == 'quick' else 300, 'routes': 14} for i in range(n)]
+    out = [{'shard': i, 'configs': 48 if tier == 'quick' else 300, 'routes': 14} for i in range(n)]
+    out += [{'shard': 900 + i, 'daemon': True, 'part': i, 'configs': 3 if tier == 'quick' else 10, 'routes': 24} for i in range(4 if tier == 'quick' else 12)]
+    return out
 
 
 def build(k, routes_text, local='127.0.0.1'):
@@ -230,7 +233,117 @@ def judge_route(res, k, ref, intent, exp, decs, surface, wit):
             res.ok(f'default:{name}:{"ibgp" if k["ibgp"] else "ebgp"}')
 
 
+def peer_open_body(k):
+    pas = k['las'] if k['ibgp'] else 65009
+    caps = [rw.cap_mp(a, s) for a, s in FAMS]
+    if k['peer_asn4']:
+        caps.append(rw.cap_asn4(pas))
+    if k['addpath']:
+        caps.append(rw.cap_addpath([(a, s, 3) for a, s in FAMS]))
+    if k['extmsg']:
+        caps.append((rw.CAP_EXTMSG, b''))
+    if k.get('enh'):
+        caps.append(rw.cap_nexthop(ENH))
+    caps.append((rw.CAP_REFRESH, b''))
+    return pas, rw.enc_open_body(pas if pas < 65536 else rw.AS_TRANS, 90, '10.0.0.2', caps)
+
+
+def run_daemon(desc):
+    """the same oracle over the REAL daemon: routes of a configuration file and routes announced by a real helper process on
+    the API pipe, observed as octets on the TCP connection of a scripted peer"""
+    from vlib import daemon
+
+    res = Result()
+    r = random.Random(desc['seed'] * 49979687 + desc['part'])
+    kinds = session_kinds()
+    for ci in range(desc['configs']):
+        k = kinds[(ci * 5 + desc['part'] * 3 + desc['seed']) % len(kinds)]
+        routes = []
+        for _ in range(desc['routes']):
+            afi, safi = r.choice(FAMS)
+            v6nh = k.get('enh') and afi == 1 and r.random() < 0.5
+            text, intent = gt.gen_route(r, afi, KIND[safi], rich=0.55, with_pathid=r.random() < 0.4, allow_self=(afi == 1) and not v6nh, nexthop_pool=['2001:db8::ff', '2001:db8:1::1'] if v6nh else None)
+            routes.append((text, intent))
+        seen = {}
+        for t, i in routes:
+            seen.setdefault(i['prefix'], (t, i))
+        routes = list(seen.values())
+        half = len(routes) // 2
+        static, api = routes[:half], routes[half:]
+        pas, peer_body = peer_open_body(k)
+        text = 'process player {\n    run @PY@ @DIR@/player.py @DIR@/script @DIR@/replies;\n    encoder text;\n}\n' + exa.neighbor_text(
+            las=k['las'],
+            pas=pas,
+            families=FAMS,
+            asn4=True,
+            addpath=k['addpath'],
+            addpath_families=FAMS if k['addpath'] else None,
+            extmsg=k['extmsg'],
+            nexthop=ENH if k.get('enh') else (),
+            body='    static {\n' + ''.join(f'        {t};\n' for t, _ in static) + '    }\n',
+            extra='    adj-rib-out true;\n    api { processes [ player ]; }',
+        )
+        v4 = (ci + desc['part']) % 2 == 0  # the legacy syntax (exabgp.api.version 4) and the default one
+        script = '#sleep 1.0\n' + ''.join((f'announce {t}\n' if v4 else f'peer * announce {t}\n') for t, _ in api)
+        d = daemon.Daemon(text, files={'script': script}, env={'exabgp_api_version': '4'} if v4 else None)
+        wit0 = {'session': sname(k), 'config': text, 'script': script}
+        try:
+            d.start()
+            peer = d.accept()
+            peer.establish(pas, peer_body=peer_body)
+            ref = rw.negotiate(rw.dec_open(peer.open_body), rw.dec_open(peer_body))
+            d.wait_lines('replies', lambda ls: any(x.startswith('["end"') for x in ls), timeout=60)
+            msgs = peer.drain(quiet=1.0, limit=30)
+            replies = [json.loads(x) for x in d.lines('replies')]
+        except daemon.Inconclusive as e:
+            res.inconclusive.append('daemon: ' + str(e)[:400])
+            continue
+        finally:
+            try:
+                peer.close()
+            except Exception:  # noqa
+                pass
+            d.stop()
+        refused = [replies[i - 1][1] for i, x in enumerate(replies) if x[0] == 'got' and ('error' in x[1]) and i and replies[i - 1][0] == 'sent']
+        if refused or any(x[0] == 'timeout' for x in replies):
+            res.violation('C01/daemon:api-refuses-legal-route', f'the daemon refused (or never answered) {len(refused)} RFC-legal API route(s): {refused[:1]}', dict(wit0, replies=replies[:60]), 'daemon')
+            continue
+        s = {'ibgp': k['ibgp'], 'local_as': k['las'], 'asn4': ref['asn4'], 'local_addr': '127.0.0.1', 'addpath_send': ref['addpath_send']}
+        ws = rw.sess(asn4=ref['asn4'], addpath=ref['addpath_send'])
+        decs = []
+        bad = False
+        for t, body in msgs:
+            if t == 4:
+                continue
+            if t != 2:
+                res.violation(f'C01/daemon:unexpected-message:{t}', f'message type {t} {body[:20].hex()} in the middle of the announcements', dict(wit0, log=d.tail() if False else ''), 'daemon')
+                bad = True
+                break
+            if 19 + len(body) > ref['msg_size']:
+                decs.append({'error': f'UPDATE of {19 + len(body)} octets on a session limited to {ref["msg_size"]}'})
+                continue
+            try:
+                decs.append(rw.dec_update(body, ws))
+            except rw.RefError as e:
+                decs.append({'error': f'reference cannot decode: {e}', 'raw': body.hex()[:400]})
+        if bad:
+            continue
+        for dd in decs:
+            if 'error' in dd:
+                res.violation('C01/undecodable-update', dd['error'], dict(wit0, raw=dd.get('raw', '')), 'daemon')
+        for surface, rs in (('daemon-config', static), ('daemon-api', api)):
+            for t, intent in rs:
+                before = sum(v['count'] for v in res.violations)
+                judge_route(res, k, ref, intent, gt.expected_wire(intent, s), decs, surface, {'session': sname(k), 'surface': surface, 'route': t, 'level': 'daemon'})
+                if sum(v['count'] for v in res.violations) == before:
+                    res.ok('surface:' + surface)
+                    res.count('daemon-api-syntax:' + ('v4' if v4 else 'v6'))
+    return res
+
+
 def run_shard(desc):
+    if desc.get('daemon'):
+        return run_daemon(desc)
     res = Result()
     exa.quiet()
     r = random.Random(desc['seed'] * 1299709 + desc['shard'])
@@ -376,7 +489,7 @@ def run_shard(desc):
 
 
 REQUIRED_CLASSES = {
-    'quick': ['surface:config', 'surface:api', 'surface:api-shared-route', 'surface:reconnect-other-capabilities', 'nexthop-self', 'default:origin:ibgp', 'default:origin:ebgp', 'default:as_path:ibgp', 'default:as_path:ebgp', 'default:local_pref:ibgp', 'default:local_pref:ebgp']
+    'quick': ['surface:config', 'surface:api', 'surface:daemon-config', 'surface:daemon-api', 'surface:api-shared-route', 'surface:reconnect-other-capabilities', 'nexthop-self', 'default:origin:ibgp', 'default:origin:ebgp', 'default:as_path:ibgp', 'default:as_path:ebgp', 'default:local_pref:ibgp', 'default:local_pref:ebgp']
     + ['kw:' + n for n in ('origin', 'as_path', 'med', 'local_pref', 'atomic', 'aggregator', 'communities', 'ext_communities', 'large_communities', 'originator', 'cluster_list', 'unknown')],
 }
 REQUIRED_CLASSES['thorough'] = REQUIRED_CLASSES['quick']
